@@ -65,7 +65,7 @@ pub fn dump_cast_obligations<'tcx>(tcx: TyCtxt<'tcx>) -> J {
                 if let ty::FnDef(cd, cargs) = fty.kind() {
                     let cp = def_str(tcx, *cd);
                     let tys: Vec<Ty<'tcx>> = cargs.types().collect();
-                    if (cp == "cast_unchecked" || cp.ends_with("::cast_unchecked")) && cd.is_local() && tys.len() == 2 {
+                    if cd.is_local() && is_identity_cast(tcx, *cd, tys.len()) {
                         casts.push((tys[0], tys[1], data.terminator().source_info.span));
                     } else if cp.ends_with("TypeId::of") && tys.len() == 1 {
                         typeids.push(tys[0]);
